@@ -9,7 +9,7 @@ ID = 'C06'
 LEVEL = 'exploration'
 BUDGET = {'quick': 150, 'thorough': 1800}
 CHUNK = 1
-RULE = ('Cases: arbitrary sample-by-k-mer tables (1..12 samples x 1..60 rows, plus a few per run of 3..45 samples x 1500..12000 rows; row styles: all bases, near-constant, all 15 '
+RULE = ('Cases: arbitrary sample-by-k-mer tables (1..12 samples x 1..60 rows, plus a few per run of 3..45 samples x 1500..12000 rows and one of 2..3 samples x 70000 rows; row styles: all bases, near-constant, all 15 '
         'codes and gaps, one ambiguous among constant, two alleles with gaps; forced rows: all-equal, all-equal-but-one-gap, '
         'only-ambiguous, one-unambiguous-rest-ambiguous, every presence count 1..n) built through `ska build` and verified '
         'by read-out.  For each table the full grid 4 filters x filter-ambig-as-missing x ambig-mask x no-gap-only-sites is '
@@ -20,7 +20,7 @@ ASSUMPTIONS = ['min-freq is passed as a short decimal string; the oracle uses th
                'tables are constructed through ska build (one record arm+base+arm+N per cell), verified before judging']
 FILTERS = ['no-filter', 'no-const', 'no-ambig', 'no-ambig-or-const']
 REQUIRED = {t: ['filter:' + f for f in FILTERS] + ['rows_kept', 'rows_dropped', 'threshold_boundary_rows',
-                                                   'submultiset_relations_checked', 'float_sensitive_thresholds', 'pretreated_files', 'aligns_to_reused_output_file', 'large_tables']
+                                                   'submultiset_relations_checked', 'float_sensitive_thresholds', 'pretreated_files', 'aligns_to_reused_output_file', 'large_tables', 'tables_over_65536_rows']
             for t in ('quick', 'thorough')}
 
 
@@ -60,6 +60,9 @@ def plan(tier, seed, rng, scale):
         # thousands of rows (and sometimes dozens of samples): passes over the table beyond their small-input paths
         descs.insert(15 + 9 * j, {'ns': rng.choice([3, 8, 12, 30, 45]), 'k': rng.choice([15, 31, 33]), 'seed': rng.getrandbits(32), 'full': False,
                                   'nrows': rng.choice([1500, 4500] if tier == 'quick' else [1500, 4500, 12000])})
+    for j, nr in enumerate([70000] if tier == 'quick' else [70000, 140000, 70000]):
+        # more columns than any block or buffer of the alignment writer (> 65536)
+        descs.insert(12 + j, {'ns': rng.choice([2, 3]), 'k': rng.choice([31, 33]), 'seed': rng.getrandbits(32), 'full': False, 'nrows': nr})
     for i, d in enumerate(descs):
         d['chk'] = (i % 6 == 0) and not d.get('nrows')
         if i % 4 == 1 and d['ns'] <= 12 and not d.get('nrows') and (10000 % d['ns'] == 0 or d['ns'] in (3, 6, 7, 9, 11, 12)):
@@ -141,6 +144,8 @@ def run_case(desc, ctx):
     rows = make_case_table(rng, k, ns, desc.get('nrows'))
     if desc.get('nrows'):
         res.count('large_tables')
+        if desc['nrows'] > 65536:
+            res.count('tables_over_65536_rows')
     res.see('nsamples', ns)
     res.see('k', k)
     for variant in (['rel', 'chk'] if desc.get('chk') else ['rel']):
